@@ -135,6 +135,12 @@ def main():
             if info.get("mode") == "spec":
                 continue  # termination checks of spec fns are support, not obligations of the repo code
             recs = rec_by_fn.get(short, [])
+            parts = qname.split("::")
+            nested_in = None
+            if not recs and len(parts) >= 3 and parts[-2] in rec_by_fn:
+                # a fn nested inside an extracted fn: it belongs to that extraction (its props, its record, its diagnostics)
+                nested_in = parts[-2]
+                recs = rec_by_fn[nested_in]
             # which record does this qualified name belong to? match container type name if several
             rec = None
             if len(recs) == 1:
@@ -156,6 +162,8 @@ def main():
                 continue
             oid = "%s.%s.%s" % (pid, unit, qname.split("::", 1)[-1])
             fails = failed_by_fn.get(short, [])
+            if nested_in and not info.get("success"):
+                fails = failed_by_fn.get(nested_in, [])
             if rec is not None:
                 fails = [x for x in fails if x["record"] is rec or x["record"] is None]
             status = "discharged" if info.get("success") else "failed"
